@@ -1,38 +1,29 @@
 import Stackage.Spec.ListSpec
+import Stackage.Lemmas.GenSem
 
 set_option linter.unusedSimpArgs false
 namespace Stackage
 open ListSpec
 
-theorem pow62 : (2:Int)^62 = 4611686018427387904 := by decide
-theorem pow63 : (2:Int)^63 = 9223372036854775808 := by decide
-theorem pow64 : (2:Int)^64 = 18446744073709551616 := by decide
-
-theorem wrap64_eq {x : Int} (h1 : -9223372036854775808 ≤ x) (h2 : x < 9223372036854775808) : wrap64 x = x := by
-  unfold wrap64; rw [pow63, pow64]; omega
-
 namespace Stk
 
-theorem ulen_eq (s : Stk) (h : SmallLen s.xs.length) : s.ulen = s.xs.length := by
-  unfold SmallLen at h; rw [pow62] at h
-  unfold ulen rawLen Gen.ulen
-  by_cases h0 : s.xs.length = 0
-  · simp [h0]
-  · have : ¬ ((s.xs.length : Int) + 1 = 0) := by omega
-    have : ¬ ((s.xs.length : Int) + 1 = 1) := by omega
-    simp (disch := omega) [*, wrap64_eq]
+theorem small_isLen {n : Nat} (h : SmallLen n) : IsLen (n : Int) := by
+  unfold SmallLen at h; rw [pow62] at h; rw [isLen_iff]; omega
 
+theorem small_isRawLen {n : Nat} (h : SmallLen n) : IsRawLen ((n : Int) + 1) := by
+  unfold SmallLen at h; rw [pow62] at h; rw [isRawLen_iff]; omega
+
+theorem ulen_eq (s : Stk) (h : SmallLen s.xs.length) : s.ulen = s.xs.length := by
+  unfold ulen rawLen
+  rw [GenSem.ulen _ (small_isRawLen h)]
+  omega
 
 theorem inInt_iff (i : Int) : InInt i ↔ (-9223372036854775808 ≤ i ∧ i < 9223372036854775808) := by
   unfold InInt; rw [pow63]
 
 theorem factorNegIndex_spec (i L : Int) (hL0 : 0 < L) (hL : L < 4611686018427387904) (h1 : -L ≤ i) (h2 : i < 0) :
-    Gen.factorNegIndex i L = L + i + 1 := by
-  unfold Gen.factorNegIndex
-  simp (disch := omega) only [wrap64_eq]
-  have : i + L * 2 > L - 1 := by omega
-  simp (disch := omega) [this, wrap64_eq]
-  omega
+    Gen.factorNegIndex i L = L + i + 1 :=
+  GenSem.factorNegIndex i L (by rw [isLen_iff]; omega) h1 h2
 
 theorem rawGet_succ (s : Stk) (p : Nat) (hp : p < s.xs.length) :
     s.rawGet ((p : Int) + 1) = .ok (s.xs.getD p .nil) := by
@@ -48,61 +39,57 @@ theorem index_spec (s : Stk) (hs : SmallLen s.xs.length) (i : Int) (hi : InInt i
                      | none => (.nil, 0, false)
                      | some p => (s.xs.getD p .nil, (p : Int) + 1, !(s.xs.getD p .nil).isNil)) := by
   have hu := ulen_eq s hs
+  have hL := small_isLen hs
   unfold SmallLen at hs; rw [pow62] at hs
   rw [inInt_iff] at hi
   unfold index
-  simp only [hu]
-  unfold Gen.index_nonempty Gen.index_isneg Gen.index_negok Gen.index_isover Gen.index_fwdok pos
+  -- the five regenerated guards, by what they mean (never by their shape)
+  simp only [hu, GenSem.index_nonempty, GenSem.index_isneg, GenSem.index_negok, GenSem.index_isover,
+    GenSem.index_fwdok, hL, decide_eq_true_eq]
+  unfold pos
   generalize hn : s.xs.length = n at *
   generalize s.flag Gen.flag_negidx = neg
   generalize s.flag Gen.flag_fwdidx = fwd
-  simp only []
-  by_cases hpos : (n : Int) > 0
-  · simp only [hpos, decide_true, ↓reduceIte]
+  by_cases hpos : 0 < (n : Int)
+  · simp only [hpos, ↓reduceIte]
     by_cases hneg : i < 0
     · have hn1 : ¬ (0 ≤ i ∧ i < (n:Int)) := by omega
       have hn2 : ¬ (i ≥ (n:Int) ∧ fwd = true ∧ n > 0) := by omega
-      simp only [hneg, decide_true, ↓reduceIte, hn1, hn2]
-      have ew : wrap64 (-(n:Int)) = -(n:Int) := by rw [wrap64_eq] <;> omega
-      rw [ew]
-      by_cases hg : -(n:Int) ≤ i
-      · cases neg
-        · simp
-        · have hf := factorNegIndex_spec i n hpos hs hg hneg
-          have hp : ((n:Int) + i).toNat < s.xs.length := by omega
-          have hc : (n:Int) + i + 1 = (((n:Int) + i).toNat : Int) + 1 := by omega
-          simp only [hg, decide_true, Bool.and_self, ↓reduceIte, hneg, and_self, true_and, hf]
-          rw [hc, rawGet_succ s _ hp]
-          rfl
-      · cases neg <;> simp [hg]
-    · by_cases hbig : i > (n:Int) - 1
+      simp only [hneg, ↓reduceIte, hn1, hn2, true_and]
+      by_cases hg : neg = true ∧ -(n:Int) ≤ i
+      · have hf := factorNegIndex_spec i n hpos hs hg.2 hneg
+        have hp : ((n:Int) + i).toNat < s.xs.length := by omega
+        have hc : (n:Int) + i + 1 = (((n:Int) + i).toNat : Int) + 1 := by omega
+        simp only [hg, and_self, ↓reduceIte, hf]
+        rw [hc, rawGet_succ s _ hp]
+        rfl
+      · simp only [hg, ↓reduceIte]
+    · by_cases hbig : (n:Int) ≤ i
       · have hn0 : ¬ (0 ≤ i ∧ i < (n:Int)) := by omega
-        have hn1 : ¬ (i < 0 ∧ neg = true ∧ -(n:Int) ≤ i) := by omega
         have hge : i ≥ (n:Int) := by omega
-        have ew : wrap64 ((n:Int) - 1) = (n:Int) - 1 := by rw [wrap64_eq] <;> omega
-        simp only [hneg, decide_false, Bool.false_eq_true, ↓reduceIte, ew, hbig, decide_true, hn0, hn1]
-        cases fwd
-        · simp
+        have hnn : n > 0 := by omega
+        simp only [hneg, ↓reduceIte, hbig, hn0, false_and, hge, hnn, and_true, true_and]
+        by_cases hf : fwd = true
         · have hp : n - 1 < s.xs.length := by omega
           have hc : (n:Int) = ((n - 1 : Nat) : Int) + 1 := by omega
-          have hnn : n > 0 := by omega
-          simp only [↓reduceIte, hge, hnn, and_self]
+          simp only [hf, ↓reduceIte]
           rw [hc, rawGet_succ s _ hp]
-          simp
+          simp only [← hc]
           rfl
+        · simp only [hf, ↓reduceIte, Bool.false_eq_true]
       · have hy : 0 ≤ i ∧ i < (n:Int) := by omega
-        have ew : wrap64 ((n:Int) - 1) = (n:Int) - 1 := by rw [wrap64_eq] <;> omega
         have e1 : wrap64 (i + 1) = i + 1 := by rw [wrap64_eq] <;> omega
         have hp : i.toNat < s.xs.length := by omega
         have hc : i + 1 = ((i.toNat : Nat) : Int) + 1 := by omega
-        simp only [hneg, decide_false, Bool.false_eq_true, ↓reduceIte, ew, hbig, hy, and_self, e1]
+        simp only [hneg, ↓reduceIte, hbig, hy, and_self, e1]
         rw [hc, rawGet_succ s _ hp]
         rfl
   · have h0 : n = 0 := by omega
     subst h0
-    have hn0 : ¬ (0 ≤ i ∧ i < 0) := by omega
-    have hn1 : ¬ (i < 0 ∧ neg = true ∧ 0 ≤ i) := by omega
-    simp [hn0, hn1]
+    have hn0 : ¬ (0 ≤ i ∧ i < ((0:Nat):Int)) := by omega
+    have hn1 : ¬ (i < 0 ∧ neg = true ∧ -((0:Nat):Int) ≤ i) := by omega
+    have hn2 : ¬ (0 < 0) := by omega
+    simp only [hpos, ↓reduceIte, hn0, hn1, gt_iff_lt, Nat.lt_irrefl, and_false]
 
 end Stk
 end Stackage
